@@ -27,8 +27,16 @@ Next == UNCHANGED t
 \* prefix AND mapping together (the mapped name is used exactly as configured: TypeExpr!Conf never prefixes it)
 \* lang_options: the file-only backend options (Go no_pointer_slice / uppercase_acronyms, Swift decorators and constraints) - they
 \* re-shape members and helper text but never the translated type
-Configs == {"base", "mapped", "prefixed", "prefixed_mapped", "mapped_container", "lang_options"}      \* mapped_container: "Vec<u8>" = Name (TypeScript, Go, Python)
-Emit == PrintT(<<"REPLAY", ToJson([rust |-> t, abs |-> Abs(t), configs |-> Configs])>>)
+\* after_sibling: the tree is generated in a program whose EARLIER items use its sibling Sib(t) - the same constructors over other
+\* leaf types (and another array length): what a backend remembers from one item to the next must not reach the translation of t
+Configs == {"base", "mapped", "prefixed", "prefixed_mapped", "mapped_container", "lang_options", "after_sibling"}      \* mapped_container: "Vec<u8>" = Name (TypeScript, Go, Python)
+RECURSIVE Sib(_)
+Sib(x) == CASE x.k = "prim" -> [x EXCEPT !.n = IF x.n = "String" THEN "u32" ELSE "String"]
+            [] x.k \in {"vec", "array", "slice", "option", "ref", "path", "wrap"} -> [x EXCEPT !.e = Sib(x.e)]
+            [] x.k \in {"map", "map3"} -> [x EXCEPT !.val = Sib(x.val)]
+            [] x.k = "user" /\ Len(x.args) = 1 -> [x EXCEPT !.args = <<Sib(x.args[1])>>]
+            [] OTHER -> x
+Emit == PrintT(<<"REPLAY", ToJson([rust |-> t, abs |-> Abs(t), configs |-> Configs, sibling |-> Sib(t)])>>)
 
 \* theorems about the specification itself
 Wrap(c, x) == [k |-> c, e |-> x]
